@@ -884,6 +884,33 @@ def run_ladder(case, ctx):
     ctx.nt(True)
 
 
+# ------------------------------------------------------------------ hundreds of intervals
+def enum_many_intervals(tier, seed):
+    for N in ([257, 600] if tier == "quick" else [255, 256, 257, 300, 513, 600, 1100]):
+        for op in ("keep", "delete"):
+            for simplify in (False, True):
+                yield dict(N=N, op=op, simplify=simplify)
+
+
+def run_many_intervals(case, ctx):
+    """keep_intervals / delete_intervals with N disjoint intervals on a sequence of N trees, two sites per tree (one
+    inside and one outside the interval of that tree)."""
+    from .c01 import many_trees_spec
+
+    N = case["N"]
+    spec = many_trees_spec(N, 0)
+    sites, muts = [], []
+    for i in range(N):
+        for x, node in ((i + 0.25, 0), (i + 0.75, 1)):
+            sites.append([x, "A", "s%d" % (i % 5)])
+            muts.append([len(sites) - 1, node, "T", -1, None, "m%d" % (i % 3)])
+    spec["sites"], spec["mutations"] = sites, muts
+    ivs = [[i + 0.125, i + 0.5] for i in range(N)]
+    run_intervals(dict(spec=spec, ivs=ivs, op=case["op"], simplify=case["simplify"], prov=False, bad=None,
+                       via_tables=(N % 2 == 0)), ctx)
+    ctx.nt(True)
+
+
 SUBCHECKS = [
     SubCheck("C11.intervals", run_intervals, strategy=intervals_case, quick=1500, thorough=45000,
              rule="an interval end strictly inside an edge, or a site exactly on an interval end, or a row with "
@@ -911,6 +938,8 @@ SUBCHECKS = [
     SubCheck("C11.extend_ladders", run_ladder, enumerate=enum_ladder, quick=1, thorough=1,
              rule="ladder tree sequences in which a unary node can be extended across 1-4 (thorough: 13) following trees, "
                   "blocked or not, mirrored or not: passes that only move edge endpoints occur"),
+    SubCheck("C11.many_intervals", run_many_intervals, enumerate=enum_many_intervals, quick=1, thorough=1, shards=8,
+             rule="257 and 600 (thorough: 255..1100) disjoint intervals on as many trees, sites inside and outside each"),
 ]
 
 # minimal reproducer of the open finding: sample 0 under n=1 under p=2 on [0, 0.5), directly under p on
